@@ -36,6 +36,7 @@ func rulesC13(c *Ctx) {
 	ruleAtomicUpdate(c, []string{"client"}, 3) // a queue rewritten from its own contents is read and written in one critical section (no lost result)
 	ruleResetForgets(c)                        // Reset forgets what was queued for the old stream, the request channel's buffer included (shared with C14): a stale request would be sent unaccounted
 	ruleErrorSinks(c)                          // the recorded errors AwaitConverged returns are complete (shared with C14)
+	ruleStateWriters(c, writersClient)
 }
 
 func rulesC14(c *Ctx) {
@@ -51,6 +52,7 @@ func rulesC14(c *Ctx) {
 	ruleErrorsRecorded(c)
 	ruleErrorSinks(c)
 	ruleResetForgets(c)
+	ruleStateWriters(c, writersClient)
 	ruleLockOrder(c, "client Reset")
 	ruleLockOrder(c, "client Close")
 	ruleLockOrder(c, "client StartSending")
